@@ -39,6 +39,11 @@ def operand_kinds(L, rng):
         "sub": lambda: L.Sub(a, b), "div": lambda: L.Div(a, L.LiteralFloat(4.0)), "access": lambda: L.ArrayAccess(arr, [i]),
         "fn": lambda: L.MathFunction("cos", [a]), "add0": lambda: L.Add(a, L.LiteralFloat(0.0)), "mul": lambda: L.Mul(b, L.LiteralInt(3)),
         "pyint0": lambda: 0, "pyint1": lambda: 1, "pyint-1": lambda: -1, "pyintk": lambda: k, "pyf0": lambda: 0.0, "pyf1": lambda: 1.0, "pyf-1": lambda: -1.0, "pyfx": lambda: x,
+        # numpy scalars are numbers.Integral / numbers.Real too (tables and weights reach the overloads as numpy values);
+        # np.float32 is refused by LiteralFloat's own assertion (a rejection, not a wrong tree) and is not an operand kind here
+        "pynpf0": lambda: np.float64(0.0), "pynpf1": lambda: np.float64(1.0), "pynpf-1": lambda: np.float64(-1.0), "pynpfx": lambda: np.float64(x),
+        "pynpi0": lambda: np.int64(0), "pynpi1": lambda: np.int32(1), "pynpi-1": lambda: np.int64(-1), "pynpik": lambda: np.int64(k),
+        "pynpf-0": lambda: np.float64(-0.0),
     }
     return K
 
@@ -72,8 +77,8 @@ def run_case(case):
 
             def value(node):
                 it = Interp(env=dict(env), arrays={"arr": Array("arr", (8,), arrv)})
-                if isinstance(node, (int, float, complex)):
-                    return node
+                if isinstance(node, (int, float, complex, np.number)):
+                    return node.item() if isinstance(node, np.number) else node
                 return it.ev(node)
 
             for n1, n2 in itertools.product(names, repeat=2):
@@ -94,7 +99,7 @@ def run_case(case):
                         except (ValueError, ZeroDivisionError):
                             count("division_by_zero_refused")
                         continue
-                    if opname == "/" and isinstance(vx, int) and isinstance(vy, int) and not isinstance(vx, bool):
+                    if opname == "/" and isinstance(vx, (int, np.integer)) and isinstance(vy, (int, np.integer)) and not isinstance(vx, bool):
                         continue
                     try:
                         tree = op(x, y)
